@@ -9,7 +9,7 @@ PROP = dict(
     level="other",
     lean_modules=["PopsModel.Props.C20"],
     theorems=["Pops.C20_err_names", "Pops.C20_err_frequency", "Pops.C20_err_date_outside", "Pops.C20_err_cohort_length",
-              "Pops.C20_err_missing", "Pops.C20_err_probabilities", "Pops.C12_weather_range", "Pops.C20_index_in_range",
+              "Pops.C20_err_missing", "Pops.C20_err_probabilities", "Pops.C12_weather_range", "Pops.C12_weather_degenerate", "Pops.C20_index_in_range",
               "Pops.C20_outside_untouched"],
     commands=["err.*"],
     runs={"quick": _SLICES_Q, "thorough": _SLICES_T},
